@@ -228,6 +228,55 @@ def random_history(rng, sid, nops):
     return {'id': sid, 'ops': ops}
 
 
+def alias_history(rng, sid, ntriples):
+    """Directed aliasing triples on one wavefront: read operand A, write an operand B that overlaps A but has another
+    base register or another register count, read A again through the same call (and the mirror image). Nothing else
+    is read in between, so an answer remembered inside the wavefront object from the first read is not refreshed."""
+    al = Allocator()
+    ns, nv = rng.choice([(32, 8), (16, 8), (48, 12)])
+    p = al.place(1, ns, nv, rng, rng.choice(['first', 'random', 'stride']))
+    ops = [{'op': 'D', 'wfs': [p], 'ns': ns, 'nv': nv, 'sx': rng.choice([1, 1, 64])}]
+    ops.extend(paint(rng, 1, ns, nv))
+    fam = {'vcc': [('vcclo', 0), ('vcclo', 1), ('vcclo', 2), ('vcchi', 0), ('vcchi', 1)],
+           'exec': [('execlo', 0), ('execlo', 1), ('execlo', 2), ('exechi', 0), ('exechi', 1)]}
+
+    def rd(api, k, i, c, lane):
+        o = {'op': 'R', 'api': api, 'w': 1, 'k': k, 'i': i, 'c': c, 'lane': lane}
+        if api == 'RB':
+            o['n'] = wbytes(k, c)
+        return o
+
+    for _ in range(ntriples):
+        r = rng.random()
+        if r < 0.8:
+            k, total = ('s', ns) if r < 0.6 else ('v', nv)
+            lane = 0 if k == 's' else rng.choice([0, 63, rng.randrange(64)])
+            ca = rng.choice([0, 1, 2, 2, 2, 3, 4])
+            ia = rng.randint(0, total - width(ca))
+            while True:
+                cb = rng.choice([0, 1, 1, 2, 2, 3, 4, 8])
+                if width(cb) > total:
+                    continue
+                ib = rng.randint(max(0, ia - width(cb) + 1), min(total - width(cb), ia + width(ca) - 1))
+                if ib != ia or width(cb) != width(ca):
+                    break
+            a, b = (k, ia, ca, lane), (k, ib, cb, lane)
+        else:
+            f = fam[rng.choice(['vcc', 'exec'])]
+            (ka, ca), (kb, cb) = rng.sample(f, 2)
+            a, b = (ka, 0, ca, 0), (kb, 0, cb, 0)
+        if rng.random() < 0.5:
+            a, b = b, a
+        api = 'RO' if wbytes(a[0], a[2]) <= 8 and rng.random() < 0.7 else rng.choice(['RB', 'RR'])
+        ops.append(rd(api, *a))
+        ops.append(write_op(rng, 1, *b))
+        ops.append(rd(api, *a))
+        if rng.random() < 0.3:
+            ops.append(write_op(rng, 1, *a))
+            ops.append(rd(api, *a))
+    return {'id': sid, 'ops': ops}
+
+
 def full_history(rng, sid, nops):
     """One wavefront owning every register a wavefront can have (s0..s101, v0..v255), a small neighbour on another
     SIMD: the extremes of the index and lane ranges."""
@@ -585,6 +634,8 @@ def run(ctx, selftest=False):
     nops = 160 if thorough else 90
     scen2 = [random_history(rng, 1000 + i, nops) for i in range(nrand)]
     scen2 += [full_history(rng, 5000 + i, 40) for i in range(12 if thorough else 3)]
+    # directed aliasing triples (read A, write an overlapping B, read A again through the same call)
+    scen2 += [alias_history(rng, 6000 + i, 30) for i in range(24 if thorough else 6)]
     # lifetime histories on the real emu.ComputeUnit (map -> run -> complete -> map the next work-group)
     life = [life_history(rng, 7000 + i) for i in range(24 if thorough else 4)]
     scen2 += life
